@@ -40,7 +40,7 @@ RULE = ('engine: every position-tagged stream of length n over a 3-symbol pointe
         '(giant, fixed sizes, single/pair cuts at +-1 of structure boundaries, byte windows, random, empty chunks, '
         'interleaved queries). non-trivial = stream carries a signature or structured header and the schedule has '
         '>= 2 chunks; distinct by (stream digest, schedule digest)')
-REQUIRED_CLAUSES = ['L-large-second-chunk', 'O-carrier-and-options-invariance', 'W-short-read-source', 'I-instance-isolation', 'E-region-exactness-backward-pointers', 'R-region-exactness', 'V-verdict-invariance', 'Q-queries-pure', 'E-engine-slice-semantics',
+REQUIRED_CLAUSES = ['under-debug-logging', 'L-large-second-chunk', 'O-carrier-and-options-invariance', 'W-short-read-source', 'I-instance-isolation', 'E-region-exactness-backward-pointers', 'R-region-exactness', 'V-verdict-invariance', 'Q-queries-pure', 'E-engine-slice-semantics',
                     'W-wrapper-verdict-invariance', 'actual-size']
 ASSUMPTIONS = ['ground truth for regions is the presented stream itself (slice semantics)',
                'known findings F1 F3 are attributed by input-only predicates (vlib/known.py, imagegen.vhdx_backward)']
